@@ -13,6 +13,7 @@ struct Ctx<'a> {
     k: u64,
     shard: u64,
     nshards: u64,
+    thorough: bool,
 }
 
 impl<'a> Ctx<'a> {
@@ -588,6 +589,54 @@ fn bds60(c: &mut Ctx) {
     }
 }
 
+/// Mach number of a calibrated airspeed (kt) at a pressure altitude (ft), ISA, compressible pitot formula
+fn cas2mach(cas_kt: f64, alt_ft: f64) -> f64 {
+    let a0 = 661.4786; // kt
+    let p_ratio = if alt_ft <= 36089.24 { (1.0 - 6.87559e-6 * alt_ft).powf(5.25588) } else { 0.223361 * (-(alt_ft - 36089.24) / 20805.8).exp() };
+    let qc = (1.0 + 0.2 * (cas_kt / a0).powi(2)).powf(3.5) - 1.0; // over p0
+    (5.0 * ((qc / p_ratio + 1.0).powf(2.0 / 7.0) - 1.0)).sqrt()
+}
+
+/// BDS 6,0: every pair (IAS, Mach) on a grid that is physically consistent (some altitude between sea level and FL450
+/// gives that Mach for that airspeed) and outside the two combinations the decoder documents as rejected
+/// (IAS > 250 with Mach < 0.4; IAS < 150 with Mach > 0.5) must be labelled and decode to the encoded values.
+fn bds60_pairs(c: &mut Ctx) {
+    let base = Bds60 { hdg: Some((0, 512)), ias: Some(280), mach: Some(195), vr_baro: Some((0, 20)), vr_ins: Some((0, 20)) };
+    let (is, ms) = if c.thorough { (1usize, 1usize) } else { (6, 3) };
+    let mut ias_values: Vec<u16> = (1..=500u16).step_by(is).collect();
+    ias_values.extend([149, 150, 151, 249, 250, 251, 252, 300, 499, 500]);
+    for ias in ias_values {
+        for code in (1..=250u16).step_by(ms) {
+            // (the work split below must see the same sequence of candidates in every shard: no data-dependent exit before it)
+            if !c.mine() {
+                continue;
+            }
+            let m = code as f64 * 2.048 / 512.0;
+            let lo = cas2mach(ias as f64, 0.0);
+            let hi = cas2mach(ias as f64, 45000.0);
+            if m < lo - 0.004 || m > hi + 0.004 {
+                continue; // no altitude gives this pair
+            }
+            if (ias > 250 && m < 0.4) || (ias < 150 && m > 0.5) {
+                c.r.class("bds60:pair-in-documented-rejection(not judged)");
+                continue;
+            }
+            let mb = frames::mb_bds60(Bds60 { ias: Some(ias), mach: Some(code), ..base });
+            for (df, f) in commb_frames(&mb, ((ias as u32) << 10) | code as u32) {
+                if let Some(v) = decode(c, &f, "bds60") {
+                    let reg = &v["bds60"];
+                    if reg.is_null() {
+                        c.r.violation("C03:bds60:not-labelled:IASxMach", format!("{df} with IAS {ias} kt and Mach {m:.3} (consistent at some altitude, outside the documented rejections) is not labelled bds60: {}", hexs(&f)), json!({"frame": hexs(&f), "field": "bds60"}));
+                    } else {
+                        expect_num(c, &f, "IASxMach:IAS:BDS60", &reg["IAS"], ias as f64, 0.0, ias as i64);
+                        expect_num(c, &f, "IASxMach:Mach:BDS60", &reg["Mach"], m, 1e-9, code as i64);
+                    }
+                }
+            }
+        }
+    }
+}
+
 fn oracle_alt13(code: u16, t: &gillham::Table) -> Option<i64> {
     if code & 0x40 != 0 {
         return None;
@@ -647,7 +696,7 @@ pub fn run(a: &Args, r: &mut Report) {
     if let Some(p) = &a.replay {
         let v: Value = serde_json::from_str(&std::fs::read_to_string(p).unwrap()).unwrap();
         let f = hex::decode(v["replay"]["frame"].as_str().unwrap()).unwrap();
-        let mut c = Ctx { r, k: 0, shard: 0, nshards: 1 };
+        let mut c = Ctx { r, k: 0, shard: 0, nshards: 1, thorough: false };
         if let Some(js) = decode(&mut c, &f, "replay") {
             c.r.extra.insert("replay_json".into(), js.clone());
             if let Some(exp) = v["replay"].get("expected").and_then(|e| e.as_f64()) {
@@ -660,7 +709,7 @@ pub fn run(a: &Args, r: &mut Report) {
         return;
     }
     let mut rng = Rng::new(a.seed, a.shard, "C03");
-    let mut c = Ctx { r, k: 0, shard: a.shard, nshards: a.nshards };
+    let mut c = Ctx { r, k: 0, shard: a.shard, nshards: a.nshards, thorough: a.thorough() };
     addresses(&mut c, a, &mut rng);
     callsigns(&mut c, a, &mut rng);
     altitudes(&mut c);
@@ -671,6 +720,7 @@ pub fn run(a: &Args, r: &mut Report) {
     bds40(&mut c);
     bds50(&mut c);
     bds60(&mut c);
+    bds60_pairs(&mut c);
     bds05_in_df20(&mut c, a, &mut rng);
     c.r.sample(json!({"field": "groundspeed/track (BDS 0,9 subtype 1)", "frame": hexs(&frames::df17(5, AA, &frames::me_velocity_gs(VelCommon { subtype: 1, vr: 1, diff: 1, ..Default::default() }, 1, 10, 0, 160))), "encoded": {"ew": -9, "ns": 159}}));
     c.r.sample(json!({"field": "selected_mcp (BDS 4,0 in DF20)", "frame": hexs(&frames::df20(0, 0, 0, frames::ac13_from_n(1440), &frames::mb_bds40(Bds40 { mcp: Some(2250), ..Default::default() }), ADDR)), "encoded_ft": 36000}));
